@@ -1,6 +1,7 @@
 import CalVerif.Model.Range
 /-! Helper lemmas about the `Range` model (list arithmetic of the flat row-major vector). -/
 namespace Range
+set_option linter.unusedSectionVars false
 variable {α : Type} [Inhabited α]
 
 theorem nChunks_mul (k w : Nat) (hw : 0 < w) : nChunks (k * w) w = k := by
@@ -68,5 +69,355 @@ theorem Inv.width_eq {r : Rng α} (_ : Inv r) (hne : r.inner.length ≠ 0) : r.w
   simp [Rng.width, hne]
 theorem Inv.height_eq {r : Rng α} (_ : Inv r) (hne : r.inner.length ≠ 0) : r.height = r.er - r.sr + 1 := by
   simp [Rng.height, hne]
+
+/-! ### `range`: the window copy -/
+
+theorem mul_add_lt_mul {p p' w q : Nat} (hq : q < w) (h : p < p') : p * w + q < p' * w := by
+  have := Nat.mul_le_mul_right w (Nat.succ_le_of_lt h)
+  rw [Nat.succ_mul] at this; omega
+
+theorem copySlice_length (dst src : List α) (dOff sOff n : Nat) (hd : dOff + n ≤ dst.length)
+    (hs : sOff + n ≤ src.length) : (copySlice dst src dOff sOff n).length = dst.length := by
+  simp only [copySlice, List.length_append, List.length_take, List.length_drop]; omega
+
+theorem copySlice_get (dst src : List α) (dOff sOff n : Nat) (hd : dOff + n ≤ dst.length)
+    (hs : sOff + n ≤ src.length) (i : Nat) :
+    (copySlice dst src dOff sOff n)[i]? =
+      if dOff ≤ i ∧ i < dOff + n then src[sOff + (i - dOff)]? else dst[i]? := by
+  unfold copySlice
+  have h1 : (dst.take dOff).length = dOff := by rw [List.length_take]; omega
+  have h2 : ((src.drop sOff).take n).length = n := by rw [List.length_take, List.length_drop]; omega
+  by_cases ha : i < dOff
+  · rw [List.append_assoc, List.getElem?_append_left (by omega), List.getElem?_take]
+    have : ¬ (dOff ≤ i ∧ i < dOff + n) := by omega
+    simp [this, ha]
+  · by_cases hb : i < dOff + n
+    · rw [List.append_assoc, List.getElem?_append_right (by omega), List.getElem?_append_left (by omega)]
+      rw [List.getElem?_take, List.getElem?_drop, h1]
+      have : dOff ≤ i ∧ i < dOff + n := by omega
+      have h3 : i - dOff < n := by omega
+      simp [this, h3]
+    · rw [List.getElem?_append_right (by simp only [List.length_append, h1, h2]; omega)]
+      rw [List.getElem?_drop]
+      have : ¬ (dOff ≤ i ∧ i < dOff + n) := by omega
+      simp only [this, if_false, List.length_append, h1, h2]
+      congr 1; omega
+
+theorem copyRows_spec (src : List α) (dw sw dr sr_ dc sc_ nc : Nat) (hdc : dc + nc ≤ dw)
+    (hsc : sc_ + nc ≤ sw) : ∀ (k : Nat) (dst : List α), (dr + k) * dw ≤ dst.length →
+    (sr_ + k) * sw ≤ src.length →
+    (copyRows src dw sw dr sr_ dc sc_ nc k dst).length = dst.length ∧
+    ∀ p q, q < dw → (copyRows src dw sw dr sr_ dc sc_ nc k dst)[p * dw + q]? =
+      if dr ≤ p ∧ p < dr + k ∧ dc ≤ q ∧ q < dc + nc then
+        src[(sr_ + (p - dr)) * sw + (sc_ + (q - dc))]? else dst[p * dw + q]?
+  | 0, dst, _, _ => by
+    refine ⟨rfl, fun p q _ => ?_⟩
+    have : ¬ (dr ≤ p ∧ p < dr + 0 ∧ dc ≤ q ∧ q < dc + nc) := by omega
+    simp only [copyRows, this, if_false]
+  | k+1, dst, hd, hs => by
+    have hd1 : (dr + k) * dw + dw ≤ dst.length := by
+      have : (dr + (k + 1)) * dw = (dr + k) * dw + dw := by rw [← Nat.add_assoc, Nat.succ_mul]
+      omega
+    have hs1 : (sr_ + k) * sw + sw ≤ src.length := by
+      have : (sr_ + (k + 1)) * sw = (sr_ + k) * sw + sw := by rw [← Nat.add_assoc, Nat.succ_mul]
+      omega
+    have hl := copySlice_length dst src ((dr + k) * dw + dc) ((sr_ + k) * sw + sc_) nc (by omega) (by omega)
+    have ih := copyRows_spec src dw sw dr sr_ dc sc_ nc hdc hsc k
+      (copySlice dst src ((dr + k) * dw + dc) ((sr_ + k) * sw + sc_) nc) (by rw [hl]; omega) (by omega)
+    simp only [copyRows]
+    refine ⟨by rw [ih.1, hl], fun p q hq => ?_⟩
+    rw [ih.2 p q hq]
+    by_cases hin : dr ≤ p ∧ p < dr + k ∧ dc ≤ q ∧ q < dc + nc
+    · have : dr ≤ p ∧ p < dr + (k + 1) ∧ dc ≤ q ∧ q < dc + nc := by omega
+      simp only [hin, this, and_self, if_true]
+    · simp only [hin, if_false]
+      rw [copySlice_get dst src _ _ nc (by omega) (by omega)]
+      rcases Nat.lt_trichotomy p (dr + k) with hlt | heq | hgt
+      · have h1 := mul_add_lt_mul (w := dw) hq hlt
+        have c1 : ¬ ((dr + k) * dw + dc ≤ p * dw + q ∧ p * dw + q < (dr + k) * dw + dc + nc) := by omega
+        have c2 : ¬ (dr ≤ p ∧ p < dr + (k + 1) ∧ dc ≤ q ∧ q < dc + nc) := by omega
+        simp only [c1, c2, if_false]
+      · subst heq
+        by_cases hq2 : dc ≤ q ∧ q < dc + nc
+        · have c1 : ((dr + k) * dw + dc ≤ (dr + k) * dw + q ∧ (dr + k) * dw + q < (dr + k) * dw + dc + nc) := by omega
+          have c2 : (dr ≤ dr + k ∧ dr + k < dr + (k + 1) ∧ dc ≤ q ∧ q < dc + nc) := by omega
+          simp only [c1, c2, and_self, if_true]
+          congr 1
+          have : dr + k - dr = k := by omega
+          rw [this]; omega
+        · have c1 : ¬ ((dr + k) * dw + dc ≤ (dr + k) * dw + q ∧ (dr + k) * dw + q < (dr + k) * dw + dc + nc) := by omega
+          have c2 : ¬ (dr ≤ dr + k ∧ dr + k < dr + (k + 1) ∧ dc ≤ q ∧ q < dc + nc) := by omega
+          simp only [c1, c2, if_false]
+      · have h1 := Nat.mul_le_mul_right dw (Nat.succ_le_of_lt hgt)
+        rw [Nat.succ_mul] at h1
+        have c1 : ¬ ((dr + k) * dw + dc ≤ p * dw + q ∧ p * dw + q < (dr + k) * dw + dc + nc) := by omega
+        have c2 : ¬ (dr ≤ p ∧ p < dr + (k + 1) ∧ dc ≤ q ∧ q < dc + nc) := by omega
+        simp only [c1, c2, if_false]
+
+theorem new_ok (sr sc er ec : Nat) (r : Rng α) (h : new sr sc er ec = .ok r) :
+    r = ⟨sr, sc, er, ec, List.replicate ((er - sr + 1) * (ec - sc + 1)) default⟩ ∧ sr ≤ er ∧ sc ≤ ec ∧
+    er - sr + 1 < U32 ∧ ec - sc + 1 < U32 ∧ (er - sr + 1) * (ec - sc + 1) < U32 := by
+  unfold new at h
+  split at h; · cases h
+  split at h; · cases h
+  split at h; · cases h
+  split at h; · cases h
+  injection h with h
+  refine ⟨h.symm, by omega, by omega, by omega, by omega, by omega⟩
+
+theorem getD_replicate_default (n i : Nat) : (List.replicate n (default : α)).getD i default = default := by
+  rw [List.getD_eq_getElem?_getD, List.getElem?_replicate]; split <;> rfl
+
+theorem valAt_of_in (r : Rng α) (p q : Nat) (hne : r.inner.length ≠ 0)
+    (h : r.sr ≤ p ∧ p ≤ r.er ∧ r.sc ≤ q ∧ q ≤ r.ec) :
+    r.valAt p q = r.inner.getD ((p - r.sr) * r.width + (q - r.sc)) default := by
+  unfold Rng.valAt; rw [if_pos ⟨hne, h⟩]
+
+theorem valAt_of_out (r : Rng α) (p q : Nat)
+    (h : ¬ (r.inner.length ≠ 0 ∧ r.sr ≤ p ∧ p ≤ r.er ∧ r.sc ≤ q ∧ q ≤ r.ec)) :
+    r.valAt p q = default := by
+  unfold Rng.valAt; rw [if_neg h]
+
+/-- everything `range` does, in one statement -/
+theorem range_core (r : Rng α) (hi : Inv r) (sr sc er ec : Nat) (r' : Rng α)
+    (h : range r sr sc er ec = .ok r') :
+    r'.sr = sr ∧ r'.sc = sc ∧ r'.er = er ∧ r'.ec = ec ∧ sr ≤ er ∧ sc ≤ ec ∧
+    r'.inner.length = (er - sr + 1) * (ec - sc + 1) ∧
+    ∀ p q, sr ≤ p → p ≤ er → sc ≤ q → q ≤ ec →
+      r'.inner.getD ((p - sr) * (ec - sc + 1) + (q - sc)) default = r.valAt p q := by
+  unfold range at h
+  cases hnew : (new sr sc er ec : Res (Rng α)) with
+  | err e => rw [hnew] at h; cases h
+  | panic e => rw [hnew] at h; cases h
+  | outOfFuel => rw [hnew] at h; cases h
+  | ok other =>
+    rw [hnew] at h
+    obtain ⟨ho, h1, h2, _, _, _⟩ := new_ok sr sc er ec other hnew
+    subst ho
+    simp only at h
+    have hdef : ∀ p q, ¬ (r.inner.length ≠ 0 ∧ r.sr ≤ p ∧ p ≤ r.er ∧ r.sc ≤ q ∧ q ≤ r.ec) →
+        (List.replicate ((er - sr + 1) * (ec - sc + 1)) (default : α)).getD
+          ((p - sr) * (ec - sc + 1) + (q - sc)) default = r.valAt p q := by
+      intro p q hout
+      rw [getD_replicate_default, valAt_of_out r p q hout]
+    split at h
+    · rename_i he
+      injection h with h; subst h
+      refine ⟨rfl, rfl, rfl, rfl, h1, h2, by simp, fun p q _ _ _ _ => hdef p q (by simp [he])⟩
+    · rename_i hne
+      split at h
+      · rename_i hdisj
+        injection h with h; subst h
+        refine ⟨rfl, rfl, rfl, rfl, h1, h2, by simp, fun p q _ _ _ _ => hdef p q (by omega)⟩
+      · rename_i hov
+        injection h with h; subst h
+        obtain ⟨hord1, hord2⟩ := hi.ord hne
+        have hw : r.width = r.ec - r.sc + 1 := hi.width_eq hne
+        have hh : r.height = r.er - r.sr + 1 := hi.height_eq hne
+        have hlen := hi.len
+        have hpos : (er - sr + 1) * (ec - sc + 1) ≠ 0 := Nat.ne_of_gt (Nat.mul_pos (by omega) (by omega))
+        have hdw : (⟨sr, sc, er, ec, List.replicate ((er - sr + 1) * (ec - sc + 1)) default⟩ : Rng α).width = ec - sc + 1 := by
+          simp [Rng.width, hpos]
+        rw [hdw]
+        have hsp := copyRows_spec r.inner (ec - sc + 1) r.width (max r.sr sr - sr) (max r.sr sr - r.sr)
+          (max r.sc sc - sc) (max r.sc sc - r.sc) (min r.ec ec + 1 - max r.sc sc) (by omega) (by omega)
+          (min r.er er + 1 - max r.sr sr) (List.replicate ((er - sr + 1) * (ec - sc + 1)) default)
+          (by rw [List.length_replicate]; exact Nat.mul_le_mul_right _ (by omega))
+          (by rw [hlen, hh]; exact Nat.mul_le_mul_right _ (by omega))
+        refine ⟨rfl, rfl, rfl, rfl, h1, h2, by simp only [hsp.1, List.length_replicate], fun p q hp1 hp2 hq1 hq2 => ?_⟩
+        simp only
+        rw [List.getD_eq_getElem?_getD, hsp.2 (p - sr) (q - sc) (by omega)]
+        by_cases hin : r.sr ≤ p ∧ p ≤ r.er ∧ r.sc ≤ q ∧ q ≤ r.ec
+        · have c : max r.sr sr - sr ≤ p - sr ∧ p - sr < max r.sr sr - sr + (min r.er er + 1 - max r.sr sr) ∧
+              max r.sc sc - sc ≤ q - sc ∧ q - sc < max r.sc sc - sc + (min r.ec ec + 1 - max r.sc sc) := by omega
+          rw [if_pos c, valAt_of_in r p q hne hin, List.getD_eq_getElem?_getD]
+          have e1 : max r.sr sr - r.sr + (p - sr - (max r.sr sr - sr)) = p - r.sr := by omega
+          have e2 : max r.sc sc - r.sc + (q - sc - (max r.sc sc - sc)) = q - r.sc := by omega
+          rw [e1, e2]
+        · have c : ¬ (max r.sr sr - sr ≤ p - sr ∧ p - sr < max r.sr sr - sr + (min r.er er + 1 - max r.sr sr) ∧
+              max r.sc sc - sc ≤ q - sc ∧ q - sc < max r.sc sc - sc + (min r.ec ec + 1 - max r.sc sc)) := by omega
+          rw [if_neg c, ← List.getD_eq_getElem?_getD]
+          exact hdef p q (by omega)
+
+/-! ### `from_sparse` -/
+
+theorem find?_congr' {β : Type} {p q : β → Bool} : ∀ (l : List β), (∀ x ∈ l, p x = q x) → l.find? p = l.find? q
+  | [], _ => rfl
+  | a :: l, h => by
+    rw [List.find?_cons, List.find?_cons, h a (List.mem_cons_self ..),
+      find?_congr' l (fun x hx => h x (List.mem_cons_of_mem _ hx))]
+
+theorem foldMin_spec : ∀ (cells : List (Nat × Nat × α)) (m : Nat),
+    cells.foldl (fun m c => if c.2.1 < m then c.2.1 else m) m ≤ m ∧
+    (∀ c ∈ cells, cells.foldl (fun m c => if c.2.1 < m then c.2.1 else m) m ≤ c.2.1) ∧
+    (cells.foldl (fun m c => if c.2.1 < m then c.2.1 else m) m = m ∨
+      ∃ c ∈ cells, c.2.1 = cells.foldl (fun m c => if c.2.1 < m then c.2.1 else m) m)
+  | [], m => ⟨Nat.le_refl _, fun _ h => (by cases h), Or.inl rfl⟩
+  | a :: l, m => by
+    obtain ⟨h1, h2, h3⟩ := foldMin_spec l (if a.2.1 < m then a.2.1 else m)
+    simp only [List.foldl_cons]
+    have hle : (if a.2.1 < m then a.2.1 else m) ≤ m ∧ (if a.2.1 < m then a.2.1 else m) ≤ a.2.1 := by
+      split <;> omega
+    refine ⟨?_, ?_, ?_⟩
+    · omega
+    · intro c hc
+      rcases List.mem_cons.mp hc with rfl | hc
+      · omega
+      · exact h2 c hc
+    · rcases h3 with h3 | ⟨c, hc, h3⟩
+      · by_cases ha : a.2.1 < m
+        · rw [if_pos ha] at h3 ⊢
+          exact Or.inr ⟨a, List.mem_cons_self .., h3.symm⟩
+        · rw [if_neg ha] at h3 ⊢
+          exact Or.inl h3
+      · exact Or.inr ⟨c, List.mem_cons_of_mem _ hc, h3⟩
+
+theorem foldMax_spec : ∀ (cells : List (Nat × Nat × α)) (m : Nat),
+    m ≤ cells.foldl (fun m c => if c.2.1 > m then c.2.1 else m) m ∧
+    (∀ c ∈ cells, c.2.1 ≤ cells.foldl (fun m c => if c.2.1 > m then c.2.1 else m) m) ∧
+    (cells.foldl (fun m c => if c.2.1 > m then c.2.1 else m) m = m ∨
+      ∃ c ∈ cells, c.2.1 = cells.foldl (fun m c => if c.2.1 > m then c.2.1 else m) m)
+  | [], m => ⟨Nat.le_refl _, fun _ h => (by cases h), Or.inl rfl⟩
+  | a :: l, m => by
+    obtain ⟨h1, h2, h3⟩ := foldMax_spec l (if a.2.1 > m then a.2.1 else m)
+    simp only [List.foldl_cons]
+    have hle : m ≤ (if a.2.1 > m then a.2.1 else m) ∧ a.2.1 ≤ (if a.2.1 > m then a.2.1 else m) := by
+      split <;> omega
+    refine ⟨?_, ?_, ?_⟩
+    · omega
+    · intro c hc
+      rcases List.mem_cons.mp hc with rfl | hc
+      · omega
+      · exact h2 c hc
+    · rcases h3 with h3 | ⟨c, hc, h3⟩
+      · by_cases ha : a.2.1 > m
+        · rw [if_pos ha] at h3 ⊢
+          exact Or.inr ⟨a, List.mem_cons_self .., h3.symm⟩
+        · rw [if_neg ha] at h3 ⊢
+          exact Or.inl h3
+      · exact Or.inr ⟨c, List.mem_cons_of_mem _ hc, h3⟩
+
+theorem sparse_fold_notok (rs cs cols len : Nat) : ∀ (cells : List (Nat × Nat × α)) (acc : Res (List α)),
+    (∀ v, acc ≠ .ok v) → cells.foldl (sparseStep rs cs cols len) acc = acc
+  | [], _, _ => rfl
+  | c :: rest, acc, h => by
+    have : sparseStep rs cs cols len acc c = acc := by
+      cases acc with
+      | ok v => exact absurd rfl (h v)
+      | _ => rfl
+    rw [List.foldl_cons, this]; exact sparse_fold_notok rs cs cols len rest acc h
+
+/-- the placement loop of `from_sparse` on the flat vector -/
+theorem sparse_fold (rs cs cols len : Nat) : ∀ (cells : List (Nat × Nat × α)) (v v' : List α),
+    v.length = len → cells.foldl (sparseStep rs cs cols len) (.ok v) = .ok v' →
+    v'.length = len ∧ (∀ c ∈ cells, rs ≤ c.1) ∧
+    ∀ i, i < len → v'.getD i default =
+      match cells.reverse.find? (fun c => decide ((c.1 - rs) * cols + (c.2.1 - cs) = i)) with
+      | some c => c.2.2
+      | none => v.getD i default
+  | [], v, v', hv, h => by
+    simp only [List.foldl_nil] at h; injection h with h; subst h
+    exact ⟨hv, fun _ hc => (by cases hc), fun i _ => rfl⟩
+  | c :: rest, v, v', hv, h => by
+    rw [List.foldl_cons] at h
+    by_cases hc : c.1 < rs
+    · have : sparseStep rs cs cols len (.ok v) c = .panic "u32 sub overflow" := by
+        simp only [sparseStep, hc, if_true]
+      rw [this, sparse_fold_notok _ _ _ _ _ _ (fun _ hh => by cases hh)] at h; cases h
+    · have hstep : sparseStep rs cs cols len (.ok v) c =
+          .ok (if (c.1 - rs) * cols + (c.2.1 - cs) < len then v.set ((c.1 - rs) * cols + (c.2.1 - cs)) c.2.2 else v) := by
+        simp only [sparseStep, hc, if_false]; split <;> rfl
+      rw [hstep] at h
+      have hv1 : (if (c.1 - rs) * cols + (c.2.1 - cs) < len then v.set ((c.1 - rs) * cols + (c.2.1 - cs)) c.2.2 else v).length = len := by
+        split
+        · rw [List.length_set]; exact hv
+        · exact hv
+      obtain ⟨a1, a2, a3⟩ := sparse_fold rs cs cols len rest _ v' hv1 h
+      refine ⟨a1, ?_, fun i hi => ?_⟩
+      · intro x hx
+        rcases List.mem_cons.mp hx with rfl | hx
+        · omega
+        · exact a2 x hx
+      · rw [a3 i hi, List.reverse_cons, List.find?_append]
+        cases hf : rest.reverse.find? (fun c => decide ((c.1 - rs) * cols + (c.2.1 - cs) = i)) with
+        | some c' => rfl
+        | none =>
+          simp only [Option.none_or, List.find?_singleton]
+          by_cases hidx : (c.1 - rs) * cols + (c.2.1 - cs) = i
+          · simp only [hidx, decide_true, if_true, hi]
+            rw [List.getD_eq_getElem?_getD, List.getElem?_set]
+            simp [hv, hi]
+          · have : decide ((c.1 - rs) * cols + (c.2.1 - cs) = i) = false := by simp [hidx]
+            simp only [this, Bool.false_eq_true, if_false]
+            split
+            · rw [List.getD_eq_getElem?_getD, List.getElem?_set, if_neg hidx, ← List.getD_eq_getElem?_getD]
+            · rfl
+
+theorem rowmajor_inj {a b a' b' w : Nat} (hb : b < w) (hb' : b' < w) (h : a * w + b = a' * w + b') :
+    a = a' ∧ b = b' := by
+  rcases Nat.lt_trichotomy a a' with hlt | heq | hgt
+  · have := mul_add_lt_mul (w := w) hb hlt; omega
+  · subst heq; omega
+  · have := mul_add_lt_mul (w := w) hb' hgt; omega
+
+theorem fromSparse_core (c0 : Nat × Nat × α) (rest : List (Nat × Nat × α)) (r : Rng α)
+    (h : fromSparse (c0 :: rest) = .ok r) :
+    r.sr = c0.1 ∧ r.er = ((c0 :: rest).getLast?.getD c0).1 ∧
+    r.sc = (c0 :: rest).foldl (fun m c => if c.2.1 < m then c.2.1 else m) (U32 - 1) ∧
+    r.ec = (c0 :: rest).foldl (fun m c => if c.2.1 > m then c.2.1 else m) 0 ∧
+    r.sr ≤ r.er ∧ r.sc ≤ r.ec ∧ r.inner.length = (r.er - r.sr + 1) * (r.ec - r.sc + 1) ∧
+    (∀ c ∈ c0 :: rest, r.sr ≤ c.1 ∧ r.sc ≤ c.2.1 ∧ c.2.1 ≤ r.ec) ∧
+    ∀ p q, r.sr ≤ p → p ≤ r.er → r.sc ≤ q → q ≤ r.ec →
+      r.inner.getD ((p - r.sr) * (r.ec - r.sc + 1) + (q - r.sc)) default =
+        (lastAt (c0 :: rest) p q).getD default := by
+  unfold fromSparse at h
+  simp only at h
+  generalize hcs : (c0 :: rest).foldl (fun m c => if c.2.1 < m then c.2.1 else m) (U32 - 1) = cs at h ⊢
+  generalize hce : (c0 :: rest).foldl (fun m c => if c.2.1 > m then c.2.1 else m) 0 = ce at h ⊢
+  generalize hre : ((c0 :: rest).getLast?.getD c0).1 = re at h ⊢
+  have hmin := foldMin_spec (c0 :: rest) (U32 - 1)
+  have hmax := foldMax_spec (c0 :: rest) 0
+  rw [hcs] at hmin; rw [hce] at hmax
+  have hcc : cs ≤ ce := by
+    have a := hmin.2.1 c0 (List.mem_cons_self ..)
+    have b := hmax.2.1 c0 (List.mem_cons_self ..)
+    omega
+  split at h; · cases h
+  split at h; · cases h
+  split at h; · cases h
+  rename_i _ hrr _
+  split at h
+  · rename_i v hfold
+    injection h with h; subst h
+    obtain ⟨a1, a2, a3⟩ := sparse_fold c0.1 cs (ce - cs + 1) ((ce - cs + 1) * (re - c0.1 + 1)) (c0 :: rest)
+      _ v (List.length_replicate ..) hfold
+    have hmem : ∀ c ∈ c0 :: rest, c0.1 ≤ c.1 ∧ cs ≤ c.2.1 ∧ c.2.1 ≤ ce :=
+      fun c hc => ⟨a2 c hc, hmin.2.1 c hc, hmax.2.1 c hc⟩
+    refine ⟨rfl, rfl, rfl, rfl, by simp only; omega, hcc, by simp only [a1, Nat.mul_comm], hmem, ?_⟩
+    intro p q hp1 hp2 hq1 hq2
+    simp only at hp1 hp2 hq1 hq2 ⊢
+    have hlt : (p - c0.1) * (ce - cs + 1) + (q - cs) < (ce - cs + 1) * (re - c0.1 + 1) := by
+      have := mul_add_lt_mul (w := ce - cs + 1) (q := q - cs) (p := p - c0.1) (p' := re - c0.1 + 1) (by omega) (by omega)
+      rw [Nat.mul_comm (ce - cs + 1)]; exact this
+    rw [a3 _ hlt, getD_replicate_default]
+    unfold lastAt
+    have hcongr : (c0 :: rest).reverse.find? (fun c => decide ((c.1 - c0.1) * (ce - cs + 1) + (c.2.1 - cs) =
+        (p - c0.1) * (ce - cs + 1) + (q - cs))) =
+        (c0 :: rest).reverse.find? (fun c => decide (c.1 = p ∧ c.2.1 = q)) := by
+      apply find?_congr'
+      intro c hc
+      have hc' := hmem c (List.mem_reverse.mp hc)
+      by_cases hpq : c.1 = p ∧ c.2.1 = q
+      · simp [hpq]
+      · have : ¬ ((c.1 - c0.1) * (ce - cs + 1) + (c.2.1 - cs) = (p - c0.1) * (ce - cs + 1) + (q - cs)) := by
+          intro heq
+          have := rowmajor_inj (by omega) (by omega) heq
+          omega
+        simp [hpq, this]
+    rw [hcongr]
+    cases (c0 :: rest).reverse.find? (fun c => decide (c.1 = p ∧ c.2.1 = q)) <;> rfl
+  · cases h
+  · cases h
+  · cases h
 
 end Range
